@@ -590,6 +590,16 @@ class System:
                         comp._component_type.name
                     )
                 )
+        # check that new component allows the existing childs
+        childs = self._get_childs()
+        if childs[eidx] != -1:
+            for c in childs[eidx]:
+                if not self._g[c]._component_type in comp._child_types:
+                    raise ValueError(
+                        "Component of type {} does not allow the existing childs!".format(
+                            comp._component_type.name
+                        )
+                    )
         self._g[eidx] = comp
         # replace node name in graph dict
         del [self._g.attrs["nodes"][name]]
